@@ -24,7 +24,8 @@ Inductive fop :=
 | IterAll                         (* [x for x in f] *)
 | Seek (off : Z) (whence : nat)   (* f.seek(off, whence) *)
 | Tell | GetValue | Len           (* f.tell(), f.getvalue(), len(f) *)
-| WriteLines (ds : list (list N)). (* f.writelines(ds): no separators added *)
+| WriteLines (ds : list (list N))  (* f.writelines(ds): no separators added *)
+| Rollover.                       (* f.rollover() / f.fileno(): move to a temporary file now; nothing to see *)
 
 Inductive fobs :=
 | ONone | OData (d : list N) | OLines (l : list (list N)) | ONat (n : nat) | OErr (e : exn).
@@ -84,6 +85,7 @@ Definition ref_step (f : rfile) (op : fop) : rfile * fobs :=
   match op with
   | Write d => (write_at f d, ONone)
   | WriteLines ds => (fold_left write_at ds f, ONone)
+  | Rollover => (f, ONone)
   | WriteBad => (f, OErr TypeError)
   | Read None => let d := rest f in (advance f (length d), OData d)
   | Read (Some n) => let d := firstn n (rest f) in (advance f (length d), OData d)
